@@ -91,6 +91,14 @@ Theorem elf_header_guards_match : forall cls dat demanded cast phdr bits be bloc
 Proof. exact elf_header_guards_match_l. Qed.
 Print Assumptions elf_header_guards_match.
 
+(* object.c yr_object_dict_set_item (the storage every module dictionary is written through): with the initial size, the growth
+   and the free-counter bookkeeping as written in the source (regenerated), after ANY number of insertions used + free = capacity
+   and the entry the next insertion writes, objects[used], lies inside the block *)
+Theorem dict_growth_invariant : forall n, dict_inv (dict_after n) /\ d_used (dict_after n) <= d_cap (dict_after n) /\
+  d_used (dict_after n) < d_cap (dict_step (dict_after n)).
+Proof. exact dict_growth_invariant_l. Qed.
+Print Assumptions dict_growth_invariant.
+
 Theorem rva_to_offset_in_range : forall pe secs rva off,
   0 <= pe_data_size pe <= 9223372036854775807 ->
   pe_rva_to_offset pe secs rva = ROffset off -> 0 <= off < pe_data_size pe.
